@@ -509,7 +509,9 @@ func checkC18(run *mon.Run, rng *mon.Rand, thorough bool) {
 				transcripts[i], sens[i] = h.f(seed, steps, modeOf(i))
 				run.Evaluations++
 			}
-			// second half concurrently
+			// second half concurrently, while other goroutines of the process serve queries on chains of their own (a node
+			// answers gRPC queries while it executes blocks): nothing a query touches may be shared with execution
+			stopLoad := startQueryLoad(4)
 			var wg sync.WaitGroup
 			for i := N / 2; i < N; i++ {
 				wg.Add(1)
@@ -519,6 +521,7 @@ func checkC18(run *mon.Run, rng *mon.Rand, thorough bool) {
 				}(i)
 			}
 			wg.Wait()
+			run.CountN("query_load_calls", stopLoad())
 			run.Evaluations += N - N/2
 			if lines, err := child.wait(); err != nil {
 				panic(fmt.Sprintf("the out-of-process replica of history %s could not be run: %v", h.name, err)) // INCONCLUSIVE
@@ -573,4 +576,46 @@ func trunc(s string, n int) string {
 		return s[:n] + "..."
 	}
 	return s
+}
+
+// startQueryLoad starts g goroutines, each with an L1 and an L2 chain of its own, that keep asking the modules' query
+// servers (and through them the pure format functions) until stop is called; stop returns the number of queries served.
+func startQueryLoad(g int) (stop func() int) {
+	var quit atomic.Bool
+	var calls atomic.Int64
+	var wg sync.WaitGroup
+	for i := 0; i < g; i++ {
+		wg.Add(1)
+		go func(i int) {
+			defer wg.Done()
+			defer func() { _ = recover() }() // the load is not under test; a crash in it ends this generator only
+			env := newL1Env(2, nil)
+			for k, d := range env.Denoms {
+				env.Deposit(env.Users[k%len(env.Users)], 1+uint64(k%2), "l2recipient", d, math.NewInt(int64(k)), nil)
+			}
+			l2 := newL2Env(L2EnvOpts{})
+			l2.L2.Deliver(l2.DepositMsg(l2.Executors[0], 1, "l1s", l2.Users[0].String(), "uinit", math.NewInt(5), nil))
+			l1 := env.L1
+			for n := 0; !quit.Load(); n++ {
+				d := env.Denoms[n%len(env.Denoms)]
+				b := 1 + uint64(n%2)
+				_, _ = l1.Q.TokenPairByL1Denom(l1.Ctx, &ophosttypes.QueryTokenPairByL1DenomRequest{BridgeId: b, L1Denom: d})
+				_, _ = l1.Q.TokenPairs(l1.Ctx, &ophosttypes.QueryTokenPairsRequest{BridgeId: b})
+				_, _ = l1.Q.Bridge(l1.Ctx, &ophosttypes.QueryBridgeRequest{BridgeId: b})
+				_, _ = l1.Q.LastFinalizedOutput(l1.Ctx, &ophosttypes.QueryLastFinalizedOutputRequest{BridgeId: b})
+				_, _ = l1.Q.NextL1Sequence(l1.Ctx, &ophosttypes.QueryNextL1SequenceRequest{BridgeId: b})
+				_, _ = l1.Q.Claimed(l1.Ctx, &ophosttypes.QueryClaimedRequest{BridgeId: b, WithdrawalHash: make([]byte, 32)})
+				_, _ = l2.L2.Q.BaseDenom(l2.L2.Ctx, &opchildtypes.QueryBaseDenomRequest{Denom: l2.L2Denom("uinit")})
+				_, _ = l2.L2.Q.Validators(l2.L2.Ctx, &opchildtypes.QueryValidatorsRequest{})
+				_, _ = l2.L2.Q.Params(l2.L2.Ctx, &opchildtypes.QueryParamsRequest{})
+				_, _ = l2.L2.Q.NextL1Sequence(l2.L2.Ctx, &opchildtypes.QueryNextL1SequenceRequest{})
+				calls.Add(10)
+			}
+		}(i)
+	}
+	return func() int {
+		quit.Store(true)
+		wg.Wait()
+		return int(calls.Load())
+	}
 }
